@@ -558,3 +558,184 @@ def generate(repo, lean_dir):
         with open(path, "w", encoding="utf-8") as f:
             f.write(txt)
     return txt
+
+
+# ---------------------------------------------------------------------------------------------
+# pyyeti/cyclecount.py: the import block that binds `rain` and the wrapper `rainflow`
+
+WSRC = os.path.join("pyyeti", "cyclecount.py")
+WOUT = os.path.join("PyYetiVerif", "Generated", "RainflowWrap.lean")
+_MODS = {"pyyeti.rainflow.c_rain": "Impl.c_rain", "pyyeti.rainflow.py_rain": "Impl.py_rain"}
+
+
+def _wbad(node, why):
+    raise TieBroken("cyclecount.py line %s: %s" % (getattr(node, "lineno", "?"), why))
+
+
+def _import_rain(node):
+    if isinstance(node, ast.Import) and len(node.names) == 1 and node.names[0].asname == "rain" \
+            and node.names[0].name in _MODS:
+        return _MODS[node.names[0].name]
+    return None
+
+
+def _frame_assign(st, env):
+    """X = pd.DataFrame(X, columns=[...]) -> (X, [cols])"""
+    if not (isinstance(st, ast.Assign) and len(st.targets) == 1 and isinstance(st.targets[0], ast.Name)
+            and isinstance(st.value, ast.Call) and ast.unparse(st.value.func) == "pd.DataFrame"
+            and len(st.value.args) == 1 and isinstance(st.value.args[0], ast.Name)
+            and len(st.value.keywords) == 1 and st.value.keywords[0].arg == "columns"
+            and isinstance(st.value.keywords[0].value, ast.List)
+            and all(isinstance(e, ast.Constant) and isinstance(e.value, str) for e in st.value.keywords[0].value.elts)):
+        _wbad(st, "expected `<v> = pd.DataFrame(<v>, columns=[<str>, …])`, found `%s`" % ast.unparse(st))
+    src = st.value.args[0].id
+    if src not in env:
+        _wbad(st, "DataFrame of the unknown name %r" % src)
+    cols = "[" + ", ".join('"%s"' % e.value.replace('"', '\\"') for e in st.value.keywords[0].value.elts) + "]"
+    return st.targets[0].id, src, cols
+
+
+def _rain_call(node):
+    if not (isinstance(node, ast.Call) and ast.unparse(node.func) == "rain.rainflow" and not node.keywords
+            and [ast.unparse(a) for a in node.args] == ["peaks", "getoffsets"]):
+        _wbad(node, "expected `rain.rainflow(peaks, getoffsets)`, found `%s`" % ast.unparse(node))
+
+
+def _wrapper_branch(stmts, targets, ind):
+    """[<targets> = rain.rainflow(peaks, getoffsets); if use_pandas: <frames>; return <targets>]"""
+    pad = " " * ind
+    if len(stmts) != 3:
+        _wbad(stmts[0] if stmts else None, "expected call / `if use_pandas:` / return")
+    call, cond, ret = stmts
+    tg = call.targets[0] if isinstance(call, ast.Assign) and len(call.targets) == 1 else None
+    names = [e.id for e in tg.elts] if isinstance(tg, ast.Tuple) and all(isinstance(e, ast.Name) for e in tg.elts) \
+        else [tg.id] if isinstance(tg, ast.Name) else None
+    if names is None or len(names) != targets or len(set(names)) != len(names):
+        _wbad(call, "expected %d assignment target(s): `%s`" % (targets, ast.unparse(call)))
+    _rain_call(call.value)
+    if not (isinstance(cond, ast.If) and ast.unparse(cond.test) == "use_pandas" and not cond.orelse):
+        _wbad(cond, "expected `if use_pandas:`")
+    if not isinstance(ret, ast.Return) or ret.value is None:
+        _wbad(ret, "expected a return")
+    rnames = [e.id for e in ret.value.elts] if isinstance(ret.value, ast.Tuple) and \
+        all(isinstance(e, ast.Name) for e in ret.value.elts) else \
+        [ret.value.id] if isinstance(ret.value, ast.Name) else None
+    if rnames is None or len(rnames) != targets:
+        _wbad(ret, "return value outside the grammar: `%s`" % ast.unparse(ret))
+    env = set(names)
+    out = []
+    out.append(pad + "-- " + ast.unparse(call))
+    out.append(pad + "match rain peaks getoffsets with")
+    out.append(pad + "| .error e => .error e")
+    if targets == 2:
+        out.append(pad + "| .ok (.plain _) => .error .internal")
+        out.append(pad + "| .ok (.pair %s %s) =>" % tuple(names))
+    else:
+        out.append(pad + "| .ok (.pair _ _) => .error .internal")
+        out.append(pad + "| .ok (.plain %s) =>" % names[0])
+    out.append(pad + "  -- if use_pandas:")
+    out.append(pad + "  if use_pandas then")
+    framed = set()
+    for st in cond.body:
+        dst, src, cols = _frame_assign(st, env)
+        if dst != src or dst in framed:
+            _wbad(st, "a DataFrame must replace the array of the same name, once")
+        framed.add(dst)
+        out.append(pad + "    -- " + ast.unparse(st))
+        out.append(pad + "    let %s : Frame _ := ⟨%s, %s⟩" % (dst, cols, src))
+    if framed != env:
+        _wbad(cond, "`if use_pandas:` does not convert exactly %s" % sorted(env))
+    out.append(pad + "    -- " + ast.unparse(ret))
+    out.append(pad + "    .ok (%s %s)" % (".frames" if targets == 2 else ".frame", " ".join(rnames)))
+    out.append(pad + "  else")
+    out.append(pad + "    .ok (%s %s)" % (".arrays" if targets == 2 else ".array", " ".join(rnames)))
+    return out
+
+
+def render_wrapper(repo):
+    path = os.path.join(repo, WSRC)
+    try:
+        src = open(path, encoding="utf-8").read()
+        tree = ast.parse(src)
+    except (OSError, SyntaxError) as e:
+        raise TieBroken("cannot read/parse %s: %s" % (WSRC, e))
+    order = None
+    fn = None
+    for node in tree.body:
+        if isinstance(node, ast.Try):
+            first = [m for m in map(_import_rain, node.body) if m]
+            if first:
+                if order is not None or len(node.body) != 1 or len(node.handlers) != 1 or node.orelse or node.finalbody:
+                    _wbad(node, "the `import … as rain` try block is no longer a single import with one handler")
+                h = node.handlers[0]
+                if not (isinstance(h.type, ast.Name) and h.type.id == "ImportError"):
+                    _wbad(h, "the fallback is no longer `except ImportError`")
+                fb = [m for m in map(_import_rain, h.body) if m]
+                if len(fb) != 1 or _import_rain(h.body[-1]) is None:
+                    _wbad(h, "the handler does not end with one `import … as rain`")
+                for st in h.body[:-1]:
+                    if not (isinstance(st, ast.If) and ast.unparse(st.test) == "not HAVE_NUMBA" and not st.orelse
+                            and len(st.body) == 1 and isinstance(st.body[0], ast.Expr)
+                            and ast.unparse(st.body[0].value.func) == "warnings.warn"):
+                        _wbad(st, "statement other than the numba warning before the fallback import")
+                order = (first[0], fb[0])
+                continue
+        for sub in ast.walk(node):
+            if isinstance(sub, (ast.Import, ast.ImportFrom)):
+                for al in sub.names:
+                    if (al.asname or al.name) == "rain":
+                        _wbad(sub, "`rain` is bound a second time")
+            if isinstance(sub, ast.Name) and sub.id == "rain" and isinstance(sub.ctx, (ast.Store, ast.Del)):
+                _wbad(sub, "`rain` is rebound")
+            if isinstance(sub, ast.Attribute) and isinstance(sub.ctx, (ast.Store, ast.Del)) \
+                    and ast.unparse(sub.value) == "rain":
+                _wbad(sub, "an attribute of `rain` is rebound")
+        if isinstance(node, ast.FunctionDef) and node.name == "rainflow":
+            if fn is not None:
+                _wbad(node, "rainflow is defined twice")
+            fn = node
+    if order is None or fn is None:
+        raise TieBroken("cyclecount.py: import block for `rain` or def rainflow not found")
+    a = fn.args
+    if [x.arg for x in a.args] != ["peaks", "getoffsets", "use_pandas"] or a.vararg or a.kwarg or a.kwonlyargs \
+            or [ast.unparse(d) for d in a.defaults] != ["False", "True"] or fn.decorator_list:
+        _wbad(fn, "signature of rainflow is no longer (peaks, getoffsets=False, use_pandas=True)")
+    body = list(fn.body)
+    if body and isinstance(body[0], ast.Expr) and isinstance(body[0].value, ast.Constant):
+        body = body[1:]
+    if not (len(body) == 4 and isinstance(body[0], ast.If) and ast.unparse(body[0].test) == "getoffsets"
+            and not body[0].orelse):
+        _wbad(fn, "rainflow(): expected `if getoffsets: …` followed by call / `if use_pandas:` / return")
+    on = _wrapper_branch(body[0].body, 2, 4)
+    off = _wrapper_branch(body[1:], 1, 4)
+    txt = (
+        "/- GENERATED by harness/translate/c05_pyrain.py from pyyeti/cyclecount.py — do not edit.\n"
+        "   The `import … as rain` block and the wrapper `rainflow(peaks, getoffsets=False, use_pandas=True)`. -/\n"
+        "import PyYetiVerif.Model.RainflowImp\n"
+        "set_option linter.unusedVariables false\n"
+        "namespace PyYetiVerif.Generated.RainflowWrap\n"
+        "open PyYetiVerif.RainflowImp\n\n"
+        "/-- `try: import %s as rain / except ImportError: import %s as rain` -/\n"
+        "def importOrder : Impl × Impl := (%s, %s)\n\n"
+        "/-- the module that `rain` names, given which imports succeed -/\n"
+        "def imported (available : Impl → Bool) : Impl :=\n"
+        "  if available importOrder.1 then importOrder.1 else importOrder.2\n\n"
+        "/-- `rainflow(peaks, getoffsets=False, use_pandas=True)`; `rain` = `rain.rainflow` -/\n"
+        "def rainflow {α : Type} (rain : Nd α → Bool → Except PyErr (PyResult α)) (peaks : Nd α)\n"
+        "    (getoffsets use_pandas : Bool) : Except PyErr (WrapResult α) :=\n"
+        "  -- if getoffsets:\n"
+        "  if getoffsets then\n%s\n"
+        "  else\n%s\n\n"
+        "end PyYetiVerif.Generated.RainflowWrap\n"
+    ) % (order[0].split(".")[1], order[1].split(".")[1], order[0], order[1], "\n".join(on), "\n".join(off))
+    return txt
+
+
+def generate_wrapper(repo, lean_dir):
+    txt = render_wrapper(repo)
+    path = os.path.join(lean_dir, WOUT)
+    old = open(path, encoding="utf-8").read() if os.path.exists(path) else None
+    if old != txt:
+        with open(path, "w", encoding="utf-8") as f:
+            f.write(txt)
+    return txt
